@@ -171,6 +171,7 @@ class Engine(Interp):
                 return None
             entries[shape] = {'zone': st.zone.copy(), 'count': 0, 'events': st.events + (('loop', key),)}
             st.events = entries[shape]['events']
+            self.last_shape = shape
             return st
         if st.zone.leq(e['zone']):
             self.stats['subsumed'] += 1
@@ -185,7 +186,17 @@ class Engine(Interp):
         e['zone'] = j
         st.zone = j.copy()
         st.events = e['events']
+        self.last_shape = shape
         return st
+
+    def join_all(self, table, key, states):
+        """join a batch of states arriving at the same loop head; one survivor per shape"""
+        latest = {}
+        for s in states:
+            r = self.loop_join(table, key, s)
+            if r is not None:
+                latest[self.last_shape] = r
+        return list(latest.values())
 
     # ------------------------------------------------------------------ function execution
     def callee_gs(self, st, fid, callee, body2):
@@ -231,19 +242,37 @@ class Engine(Interp):
         results = []
         work = [(0, st)]
         while work:
-            bi, s = work.pop()
-            if bi in heads:
+            # straight-line work first; loop heads only when nothing else is pending, and then
+            # all states waiting at the same head are joined before the body is explored again
+            pick = None
+            for i in range(len(work) - 1, -1, -1):
+                if work[i][0] not in heads:
+                    pick = i
+                    break
+            if pick is None:
+                hb = work[-1][0]
+                batch = [w[1] for w in work if w[0] == hb]
+                work = [w for w in work if w[0] != hb]
                 live_in, borrowed = body.liveness()
-                fr = s.frames[fid]
-                for l in [l for l in fr if l >= 0 and l > body.arg_count and l not in live_in[bi]
-                          and l not in borrowed]:
-                    del fr[l]
-                s = self.loop_join(table, (fid, bi), s)
-                if s is None:
+                for s in batch:
+                    fr = s.frames[fid]
+                    for l in [l for l in fr if l >= 0 and l > body.arg_count and l not in live_in[hb]
+                              and l not in borrowed]:
+                        del fr[l]
+                survivors = self.join_all(table, (fid, hb), batch)
+                if not survivors:
                     continue
+                for s in survivors[1:]:
+                    work.append((-1 - hb, s))     # negative: already joined, continue into the body
+                bi, s = hb, survivors[0]
+            else:
+                bi, s = work.pop(pick)
+                if bi < 0:
+                    bi = -1 - bi
             self.stats['blocks'] += 1
             if self.stats['blocks'] > MAX_STEPS:
                 raise Budget()
+            self.in_unwind = s.unwinding
             blk = body.blocks[bi]
             states = [s]
             try:
